@@ -94,6 +94,10 @@ pub struct FakeSender<T: ExchangeData> {
 }
 
 impl<T: ExchangeData> FakeSender<T> {
+    pub(crate) fn new(from: Coord, sender: NetworkSender<T>) -> Self {
+        Self { from, sender }
+    }
+
     /// Send a batch, blocking if the (bounded) channel is full. Returns false if disconnected.
     pub fn send(&self, batch: Vec<StreamElement<T>>) -> bool {
         self.sender
@@ -109,6 +113,10 @@ pub struct FakeReceiver<T: ExchangeData> {
 }
 
 impl<T: ExchangeData> FakeReceiver<T> {
+    pub(crate) fn new(to: Coord, receiver: NetworkReceiver<T>) -> Self {
+        Self { to, receiver }
+    }
+
     /// Receive without blocking: the sender coordinate and the batch content.
     pub fn try_recv(&self) -> Option<(Coord, Vec<StreamElement<T>>)> {
         self.receiver
@@ -200,6 +208,22 @@ pub(crate) fn now(real: std::time::Instant) -> std::time::Instant {
     })
 }
 
+thread_local! {
+    static BATCHER_ELAPSED: std::cell::Cell<Option<std::time::Duration>> =
+        const { std::cell::Cell::new(None) };
+}
+
+/// Script what `Batcher::enqueue` (Adaptive mode) sees as `last_send.elapsed()` *on this thread*:
+/// `Some(d)` makes every following `enqueue` behave as if `d` had passed since the last flush;
+/// `None` restores the real clock.
+pub fn set_batcher_elapsed(elapsed: Option<std::time::Duration>) {
+    BATCHER_ELAPSED.with(|c| c.set(elapsed))
+}
+
+pub(crate) fn batcher_elapsed() -> Option<std::time::Duration> {
+    BATCHER_ELAPSED.with(|c| c.get())
+}
+
 // ------------------------------------------------------------------------------------------------
 // worker life-cycle callbacks
 
@@ -246,6 +270,8 @@ pub struct GraphDump {
     pub addresses: Vec<((CoordUInt, CoordUInt, CoordUInt), String, u16)>,
 }
 
-pub use crate::network::verif_hooks::{frame_recv, frame_send, set_link_observer, LinkEvent};
+pub use crate::network::verif_hooks::{
+    frame_recv, frame_send, mux_demux_pair, set_link_observer, LinkEvent, MuxDemuxPair,
+};
 pub use crate::operator::iteration::verif_hooks as iteration;
 pub use crate::operator::verif_hooks as ops;
